@@ -152,6 +152,18 @@ Theorem c16_answered_next_request :
 Proof. exact answered_next_request. Qed.
 Print Assumptions c16_answered_next_request.
 
+(* ... read off by call id: the call ids answered by the next request are the call ids of the drained calls, in
+   that order, each once (they are pairwise distinct); in stateless mode appended to those answered before *)
+Theorem c16_answered_once_by_call_id :
+  forall g valid tool prompt init script pre it1 it2 post,
+  res_iters (run g valid tool prompt init script) = pre ++ it1 :: it2 :: post ->
+  (g_stateless g = false -> out_ids (items_of (it_req it2)) = map c_id (it_calls it1)) /\
+  (g_stateless g = true ->
+     out_ids (items_of (it_req it2)) = out_ids (items_of (it_req it1)) ++ map c_id (it_calls it1)) /\
+  (g_fixed g = FIXED -> NoDup (map c_id (it_calls it1))).
+Proof. exact answered_by_call_id. Qed.
+Print Assumptions c16_answered_once_by_call_id.
+
 (* ---- stateless-history mode: each request's input extends the previous one ---- *)
 Theorem c16_stateless_prefix :
   forall g valid tool prompt init script pre it1 it2 post,
